@@ -19,7 +19,7 @@ pub enum Strategy {
     /// park every thread that reaches hook site `site` until `count` threads are parked there (or nobody
     /// else can run), then release them all and continue with short random run lengths: maximises the
     /// number of threads simultaneously inside one region of the code under test
-    PileUp { site: u32, count: usize },
+    PileUp { site: u32, count: usize, mean_after: f64 },
 }
 
 impl Strategy {
@@ -27,7 +27,7 @@ impl Strategy {
         match self {
             Strategy::Random { mean } => format!("random:{}", mean),
             Strategy::Pct { change_points } => format!("pct:{}", change_points.iter().map(|c| c.to_string()).collect::<Vec<_>>().join(",")),
-            Strategy::PileUp { site, count } => format!("pileup:{}:{}", site, count),
+            Strategy::PileUp { site, count, mean_after } => format!("pileup:{}:{}:{}", site, count, mean_after),
         }
     }
 }
@@ -106,11 +106,11 @@ impl State {
             }
         }
         match &self.strategy {
-            Strategy::PileUp { .. } => {
+            Strategy::PileUp { mean_after, .. } => {
                 let free: Vec<usize> = alive.iter().copied().filter(|i| !self.parked[*i]).collect();
                 if self.released {
                     let t = alive[self.rng.below(alive.len())];
-                    (t, self.rng.run_len(3.0))
+                    (t, self.rng.run_len(*mean_after))
                 } else {
                     // run a free thread until it reaches the site (it parks itself in `switch`)
                     let t = free[self.rng.below(free.len())];
